@@ -1,0 +1,212 @@
+// SPDX-FileCopyrightText: 2026 The Pion community <https://pion.ly>
+// SPDX-License-Identifier: MIT
+
+//go:build verif && !js
+
+package webrtc
+
+import (
+	"errors"
+	"time"
+
+	"github.com/pion/datachannel"
+	"github.com/pion/logging"
+	"github.com/pion/sctp"
+	"github.com/pion/transport/v4/dpipe"
+)
+
+// VerifDataChannel is a DataChannel that has not been opened yet, registered with the SCTPTransport of
+// a fresh PeerConnection, plus a scripted transport: a real pion/datachannel channel on a real SCTP
+// stream of an in-memory association pair whose remote end is driven by the harness (C20).
+type VerifDataChannel struct {
+	D  *DataChannel
+	PC *PeerConnection
+
+	local, remote    *sctp.Association
+	lstream, rstream *sctp.Stream
+	dc               *datachannel.DataChannel
+	// canary streams: never carry data; the remote resets canary[0] right after the channel's stream, so
+	// a failed read on the local canary[0] tells that the channel's stream has seen the reset as well;
+	// canary[1] only fails when the association goes away.
+	lcanary, rcanary [2]*sctp.Stream
+	remoteDown       bool
+}
+
+var errVerifTimeout = errors.New("verif: timeout")
+
+// NewVerifDataChannel builds the channel, the PeerConnection and the transport pair.
+func NewVerifDataChannel(detach bool) (*VerifDataChannel, error) {
+	se := SettingEngine{}
+	if detach {
+		se.DetachDataChannels()
+	}
+	lf := logging.NewDefaultLoggerFactory()
+	lf.DefaultLogLevel = logging.LogLevelDisabled
+	se.LoggerFactory = lf
+	api := NewAPI(WithSettingEngine(se))
+	pc, err := api.NewPeerConnection(Configuration{})
+	if err != nil {
+		return nil, err
+	}
+	id := uint16(1)
+	d, err := api.newDataChannel(
+		&DataChannelParameters{Label: "verif", ID: &id, Ordered: true},
+		nil, lf.NewLogger("verif"),
+	)
+	if err != nil {
+		return nil, err
+	}
+
+	ca, cb := dpipe.Pipe()
+	type res struct {
+		a   *sctp.Association
+		err error
+	}
+	srv := make(chan res, 1)
+	go func() {
+		a, e := sctp.Server(sctp.Config{NetConn: cb, LoggerFactory: lf})
+		srv <- res{a, e}
+	}()
+	local, err := sctp.Client(sctp.Config{NetConn: ca, LoggerFactory: lf})
+	if err != nil {
+		return nil, err
+	}
+	var remote *sctp.Association
+	select {
+	case r := <-srv:
+		if r.err != nil {
+			return nil, r.err
+		}
+		remote = r.a
+	case <-time.After(5 * time.Second):
+		return nil, errVerifTimeout
+	}
+	lstream, err := local.OpenStream(id, sctp.PayloadTypeWebRTCBinary)
+	if err != nil {
+		return nil, err
+	}
+	rstream, err := remote.OpenStream(id, sctp.PayloadTypeWebRTCBinary)
+	if err != nil {
+		return nil, err
+	}
+	var lcanary, rcanary [2]*sctp.Stream
+	for k := range lcanary {
+		if lcanary[k], err = local.OpenStream(uint16(3+2*k), sctp.PayloadTypeWebRTCBinary); err != nil { //nolint:gosec
+			return nil, err
+		}
+		if rcanary[k], err = remote.OpenStream(uint16(3+2*k), sctp.PayloadTypeWebRTCBinary); err != nil { //nolint:gosec
+			return nil, err
+		}
+	}
+	// Negotiated: no DATA_CHANNEL_OPEN is written; the harness decides whether the remote acknowledges.
+	dc, err := datachannel.Client(lstream, &datachannel.Config{
+		ChannelType: datachannel.ChannelTypeReliable, Negotiated: true, Label: "verif", LoggerFactory: lf,
+	})
+	if err != nil {
+		return nil, err
+	}
+
+	pc.sctpTransport.lock.Lock()
+	pc.sctpTransport.dataChannels = append(pc.sctpTransport.dataChannels, d)
+	pc.sctpTransport.sctpAssociation = local
+	pc.sctpTransport.lock.Unlock()
+
+	return &VerifDataChannel{
+		D: d, PC: pc, local: local, remote: remote, lstream: lstream, rstream: rstream, dc: dc,
+		lcanary: lcanary, rcanary: rcanary,
+	}, nil
+}
+
+// HandleOpen calls DataChannel.handleOpen with the scripted transport.
+func (v *VerifDataChannel) HandleOpen(isRemote, isAlreadyNegotiated bool) {
+	v.D.handleOpen(v.dc, isRemote, isAlreadyNegotiated)
+}
+
+// IsGracefulClosed reads the flag close() sets.
+func (v *VerifDataChannel) IsGracefulClosed() bool {
+	v.D.mu.RLock()
+	defer v.D.mu.RUnlock()
+
+	return v.D.isGracefulClosed
+}
+
+// waitCanary returns once a read on the canary stream fails.
+func (v *VerifDataChannel) waitCanary(st *sctp.Stream) bool {
+	done := make(chan struct{})
+	go func() {
+		buf := make([]byte, 16)
+		for {
+			if _, _, err := st.ReadSCTP(buf); err != nil {
+				close(done)
+
+				return
+			}
+		}
+	}()
+	select {
+	case <-done:
+		return true
+	case <-time.After(8 * time.Second):
+		return false
+	}
+}
+
+// RemoteClose resets the remote's outgoing stream (the peer closes the channel) and waits until the
+// local stream has seen it. It fails when the association is already down.
+func (v *VerifDataChannel) RemoteClose() bool {
+	if err := v.rstream.Close(); err != nil {
+		return false
+	}
+	if err := v.rcanary[0].Close(); err != nil {
+		return false
+	}
+
+	return v.waitCanary(v.lcanary[0])
+}
+
+// RemoteAbort aborts the remote association (the transport goes away without PeerConnection.Close)
+// and waits until the local association is down.
+func (v *VerifDataChannel) RemoteAbort() bool {
+	if v.remoteDown {
+		return false
+	}
+	v.remoteDown = true
+	v.remote.Abort("")
+	ok := v.waitCanary(v.lcanary[1])
+	// the local association is closed now: SCTPTransport.Stop has nothing left to abort (aborting a
+	// closed association only waits for its flush timeouts)
+	v.detachAssociation()
+
+	return ok
+}
+
+func (v *VerifDataChannel) detachAssociation() {
+	v.PC.sctpTransport.lock.Lock()
+	v.PC.sctpTransport.sctpAssociation = nil
+	v.PC.sctpTransport.lock.Unlock()
+}
+
+// RemoteAck sends DATA_CHANNEL_ACK; it fails when the remote has closed the stream or the association.
+func (v *VerifDataChannel) RemoteAck() bool {
+	_, err := v.rstream.WriteSCTP([]byte{0x02}, sctp.PayloadTypeWebRTCDCEP)
+
+	return err == nil
+}
+
+// PCClose calls PeerConnection.Close (which aborts the local association), then closes the remote
+// association too (it may not have seen the ABORT yet), so that later remote actions fail for sure.
+func (v *VerifDataChannel) PCClose() bool {
+	err := v.PC.Close()
+	_ = v.remote.Close()
+	v.remoteDown = true
+
+	return err == nil
+}
+
+// Cleanup tears the transport pair and the PeerConnection down.
+func (v *VerifDataChannel) Cleanup() {
+	v.detachAssociation()
+	_ = v.PC.Close()
+	_ = v.local.Close()
+	_ = v.remote.Close()
+}
